@@ -40,28 +40,33 @@ def lparenTightKeyword : KeywordKind → Bool
   | .kClass | .kAbstract | .kSealed | .kHelper | .kInterface | .kFunction | .kProcedure | .kArray | .kString => true
   | _ => false
 
+/-- `+`/`-`: binary or unary, decided by the nearest previous real token -/
+def plusMinusSpacing (prevReal : Option Kind) : Option Nat × Option Nat :=
+  match prevReal with
+  | some (.tOp .oRBrack) | some (.tOp .oRParen) | some (.tOp (.oGreaterThan .chGeneric)) => (some 1, some 1)
+  | some (.tKeyword .kInherited) | some (.tKeyword .kNil) => (some 1, some 1)
+  | none => (none, some 0)
+  | some (.tOp _) | some (.tKeyword _) | some (.tComment _) | some .tCompilerDirective
+  | some (.tConditionalDirective _) => (none, some 0)
+  | _ => (some 1, some 1)
+
+/-- `(` / `[`: tight after identifiers and some keywords -/
+def openBracketSpacing (prev : Option Kind) : Option Nat × Option Nat :=
+  match prev with
+  | some .tIdentifier => (some 0, some 0)
+  | some (.tKeyword k) => if lparenTightKeyword k then (some 0, some 0) else (some 1, some 0)
+  | _ => (none, some 0)
+
 /-- `space_operator`; `prev`/`next` = neighbouring token kinds, `prevReal` = nearest previous
     token that is not a comment or directive -/
 def spaceOperator (op : OperatorKind) (prev prevReal next : Option Kind) : Option Nat × Option Nat :=
-  let binary : Option Nat × Option Nat := (some 1, some 1)
   match op with
-  | .oStar | .oSlash | .oAssign | .oEqual _ | .oNotEqual | .oLessEqual | .oGreaterEqual => binary
-  | .oLessThan .chComp | .oGreaterThan .chComp => binary
-  | .oPlus | .oMinus =>
-    (match prevReal with
-     | some (.tOp .oRBrack) | some (.tOp .oRParen) | some (.tOp (.oGreaterThan .chGeneric)) => binary
-     | some (.tKeyword .kInherited) | some (.tKeyword .kNil) => binary
-     | none => (none, some 0)
-     | some (.tOp _) | some (.tKeyword _) | some (.tComment _) | some .tCompilerDirective
-     | some (.tConditionalDirective _) => (none, some 0)
-     | _ => binary)
+  | .oStar | .oSlash | .oAssign | .oEqual _ | .oNotEqual | .oLessEqual | .oGreaterEqual => (some 1, some 1)
+  | .oLessThan .chComp | .oGreaterThan .chComp => (some 1, some 1)
+  | .oPlus | .oMinus => plusMinusSpacing prevReal
   | .oComma | .oColon => (some 0, some 1)
   | .oRBrack | .oRParen => if isIdentOrKeyword next then (some 0, some 1) else (some 0, some 0)
-  | .oLBrack | .oLParen =>
-    (match prev with
-     | some .tIdentifier => (some 0, some 0)
-     | some (.tKeyword k) => if lparenTightKeyword k then (some 0, some 0) else (some 1, some 0)
-     | _ => (none, some 0))
+  | .oLBrack | .oLParen => openBracketSpacing prev
   | .oCaret .caDeref => (some 0, some 0)
   | .oCaret .caType => (none, some 0)
   | .oDot | .oDotDot => (some 0, some 0)
